@@ -16,4 +16,14 @@ TEXTS = {
                     "counter-examples in the explored classes, not a proof."),
         level_note=("Trusted: the harness's naive loops and long double arithmetic; rapidcheck. Matrices up to 8x8 (140x140 for the "
                     "thread-count differential), dyadic values so that products are exact; ill-conditioned solves are not generated.")),
+    "C16": dict(
+        engine="rapidcheck",
+        technique="property-based testing (rapidcheck): generated rotated grids, nodes and off-boundary points; inverse round-trips and an independent long-double geometry as oracle; derived grids located against the parent",
+        design_ref="DESIGN.md §5 C16",
+        level_text=("Exploration: every node of tens of thousands of generated grids (1-3D, any rotation, non-cubic) and generated query points "
+                    "go through all rank/indices/coordinates conversions and the point-to-cell assignment, and are compared with geometry "
+                    "computed independently in the harness; derived grids are checked node by node against the parent. Counter-example "
+                    "search with shrinking, not a proof."),
+        level_note=("Trusted: the harness's own rotation/index arithmetic (long double), rapidcheck. nx<=12 per axis, factors<=4, <=3-D; "
+                    "points within 1e-4 cell of a face are excluded as the property excludes boundary points.")),
 }
